@@ -58,6 +58,9 @@ def _rows_case(rng, n):
             r[4] = float(rng.choice([0, 1])) if rng.random() < 0.3 else r[4]
             rows.append(r)
             prev = r
+    # feeds must be positive (add_path rejects anything else since the C10 repair); keep the repeat / change structure
+    for r in rows:
+        r[3] = abs(r[3]) + 0.5 if abs(r[3]) < 1e30 else 1.0
     return mode, [[float(np.float32(v)) for v in r] for r in rows]
 
 
